@@ -190,7 +190,7 @@ impl Check for C03Check {
             Phase::random("char-soups", tier.pick(60_000, 2_000_000), 300).with_min_tape(2).with_chunk(1024),
             Phase::exhaustive("scaling", (FAMILIES.len() * Self::sizes(tier).len()) as u64).with_chunk(1).with_deadline_ms(30_000),
             Phase::exhaustive("statement-blocks", block_string_count(tier.pick(7, 8))).with_chunk(16384),
-            Phase::exhaustive("repetition", repetition_programs().len() as u64).with_chunk(16),
+            Phase::exhaustive("repetition", repetition_corpus().len() as u64).with_chunk(16),
         ]
     }
     fn run(&self, tier: Tier, phase: usize, input: &Input, ctx: &mut CaseCtx) {
@@ -236,7 +236,7 @@ impl Check for C03Check {
                 classify(&out, &s, ctx);
             }
             (6, Input::Index(i)) => {
-                let s = repetition_programs()[*i as usize].clone();
+                let s = repetition_corpus()[*i as usize].clone();
                 ctx.render(|| format!("{:?}", s));
                 let out = run_pipeline(&s, ctx);
                 classify(&out, &s, ctx);
